@@ -135,9 +135,9 @@ def main():
         "setup_cmd": "cd /verif && ./setup.sh",
         "hooks": {
             "guard": "verif",
-            "enable": "go build -tags verif (the ./check wrapper builds the harness module /verif/mc, which replaces github.com/theory/sqljson with /repo, with -tags verif)",
+            "enable": "go build -tags verif (the ./check wrapper builds the harness module /verif/mc, which replaces github.com/theory/sqljson with /repo, with -tags verif); hooks: parser.VerifHook (top of lexer.Lex) and ast.VerifHook (top of every node's writeTo), both no-ops without the tag",
             "baseline_off_cmd": BASELINE_OFF,
-            "source_commits": ["b049178"],
+            "source_commits": ["b049178", "e305389"],
             "add_only": True,
         },
         "engines": [
